@@ -29,3 +29,20 @@ Proof.
   intros Hin Hj H. apply (body_roundtrip valid ep w t v Hin).
   eapply deser_ok; eauto using body_wf.
 Qed.
+
+(** * Typed query strings *)
+From C16 Require Import Query QueryProofs.
+
+Definition query_ok (e : str * ty) : bool := match snd e with TStruct fs => wf_q fs | _ => false end.
+
+Lemma query_schemas_wf : forallb query_ok endpoint_queries = true.
+Proof. vm_compute. reflexivity. Qed.
+
+Lemma typed_query_roundtrip valid parse_int :
+  (forall lo hi z, (lo <= z <= hi)%Z -> parse_int (lo <? 0)%Z (JsonText.print_Z z) = Some z) ->
+  forall ep fs vs, In (ep, TStruct fs) endpoint_queries -> ok_q_fields valid fs vs ->
+  exists q, qser fs vs = Some q /\ qdeser valid parse_int fs q = Some vs.
+Proof.
+  intros Hpp ep fs vs Hin Hok. pose proof query_schemas_wf as W. rewrite forallb_forall in W.
+  specialize (W _ Hin). cbn in W. eapply q_roundtrip; eauto.
+Qed.
